@@ -223,6 +223,20 @@ func IllFormed() []Ill {
 		add(cmd[0], toB(append(append([]string{}, cmd...), "LIMIT", "0")), "omitted", len(cmd)+2)
 		add(cmd[0], toB(append(append([]string{}, cmd...), "LIMIT")), "omitted", len(cmd)+1)
 	}
+	// ZRANGE ... BYSCORE: the two bounds are score bounds there
+	for pos := 2; pos <= 3; pos++ {
+		for _, t := range badBounds {
+			v := []string{"ZRANGE", "ik", "1", "2", "BYSCORE"}
+			v[pos] = t
+			add("ZRANGE", toB(v), "non-numeric:"+t, pos)
+			w := []string{"ZRANGE", "ik", "(1", "(2", "byscore", "WITHSCORES"}
+			w[pos] = t
+			add("ZRANGE", toB(w), "non-numeric:"+t, pos)
+		}
+		v := toB([]string{"ZRANGE", "ik", "1", "2", "BYSCORE"})
+		v[pos] = nil
+		add("ZRANGE", v, "null", pos)
+	}
 	// SET options
 	set := func(kind string, opts ...string) {
 		add("SET", toB(append([]string{"SET", "ik", "iv"}, opts...)), kind, 3)
